@@ -157,7 +157,9 @@ Inductive adc_kind := Simple | Sar | Sar0.
 Record adc_case := {
   kind : adc_kind; bits : Z; vmin : b64; vmax : b64; xs : list b64;   (* xs sorted ascending *)
   observed : option (Z * list Z);
-  twin : option (list Z)   (* Sar0 only: what the noise-free converter returned on the same frame *)
+  twin : option (list Z);  (* Sar0 only: what the noise-free converter returned on the same frame *)
+  exact : bool             (* true: float64 signal frame, the binary64 model applies and is compared;
+                              false: float32/float16 frame, the output is only judged against the spec *)
 }.
 
 Fixpoint listZ_eqb (a b : list Z) : bool :=
@@ -175,7 +177,7 @@ Definition model_of (ch : dtype_chain) (c : adc_case) : option (Z * list (option
   end.
 
 Definition case_mismatch (ch : dtype_chain) (c : adc_case) : bool :=
-  negb (frame_agree (model_of ch c) (observed c)).
+  if exact c then negb (frame_agree (model_of ch c) (observed c)) else false.
 
 (* the allowed settings: 4 <= bits <= 64 and vmin < vmax; on them the implementation must not raise *)
 Definition case_violates (c : adc_case) : bool :=
